@@ -95,3 +95,65 @@ def register_selection(reg):
             "raised-only-when-no-named-node-has-alignments": "forall(lambda t: implies(0 <= t < len(nodes), not keyed(t)))",
         }},
     ))
+
+
+# ---- get_unstable: regions -> ids of exactly the indexed nodes under each region (C05 glue around search) -----------------------------
+NK = TupleT(INT, Key)
+GU_M = {
+    "rc": "lambda n: split_colon(regions[n])[0]",
+    "ra": "lambda n: int(split_dash(split_colon(regions[n])[1])[0])",
+    "rb": "lambda n: int(split_dash(split_colon(regions[n])[1])[len(split_dash(split_colon(regions[n])[1])) - 1])",
+    "hits": "lambda n, key: key in index and key[1] == split_colon(regions[n])[0] and key[2] <= rb(n) and ra(n) < key[3]",
+    "wfl": "lambda L, c: forall(lambda j, k: implies(0 <= j < k < len(L), L[j][3] <= L[k][2])) and "
+           "forall(lambda j: implies(0 <= j < len(L), L[j] in index and L[j][1] == c and 0 <= L[j][2] < L[j][3]))",
+}
+
+
+def register_get_unstable(reg):
+    reg.add(Contract(
+        file=VIEW, func="get_unstable", variant="#body",
+        params=dict(regions=ListT(STR), index=IndexT), returns=ListT(STR),
+        types=dict(KEY=Key, STR=STR, INT=INT), ufuns={"split_colon": ([STR], LINE), "split_dash": ([STR], LINE)},
+        ghost=dict(cachepos=MapT(Key, INT), rn=MapT(INT, INT), rkey=MapT(INT, Key), rpos=MapT(NK, INT), sglo=INT, filter_pos=MapT(INT, INT), filter_inv=MapT(INT, INT),
+                   sort_perm=MapT(INT, INT), sort_perm_inv=MapT(INT, INT)),
+        locals=dict(node_dict=DictT(STR, ListT(Key)), result=ListT(STR), node_list=ListT(Key)),
+        spec_funcs=GU_M, call_ghost={"search": {"glo": "sglo"}},
+        requires=[
+            "forall(lambda n: implies(0 <= n < len(regions), len(split_colon(regions[n])) >= 2 and ra(n) >= 0))",
+            # a view index over a valid rGFA: intervals non-empty, distinct nodes of one contig are disjoint
+            "forall(KEY, lambda k: implies(k in index, 0 <= k[2] < k[3]))",
+            "forall([KEY, KEY], lambda k1, k2: implies(k1 in index and k2 in index and k1[1] == k2[1] and k1 != k2, k1[3] <= k2[2] or k2[3] <= k1[2]))",
+        ],
+        loops={
+            1: Loop(index="it1", fingerprint="for n, c in enumerate(contig)", modifies=["sglo", "filter_pos", "filter_inv", "sort_perm", "sort_perm_inv"], invariant={
+                "cache-lists-wellformed": "forall(STR, lambda c: implies(c in node_dict, wfl(node_dict[c], c)))",
+                "cache-lists-complete": "forall(KEY, lambda k: implies(k in index and k[1] in node_dict, 0 <= cachepos[k] < len(node_dict[k[1]]) and node_dict[k[1]][cachepos[k]] == k))",
+                "only-nodes-under-a-region": "forall(lambda p: implies(0 <= p < len(result), 0 <= rn[p] < it1 and hits(rn[p], rkey[p]) and result[p] == rkey[p][0]))",
+                "every-node-under-a-region": "forall([INT, KEY], lambda n, k: implies(0 <= n < it1 and hits(n, k), 0 <= rpos[(n, k)] < len(result) and result[rpos[(n, k)]] == k[0]))",
+            }),
+            2: Loop(index="it2", fingerprint="for nd in node", invariant={}),
+            3: Loop(index="it3", fingerprint="for nd in node", invariant={
+                "only-nodes-under-a-region": "forall(lambda p: implies(0 <= p < len(result), 0 <= rn[p] <= it1 - 1 and hits(rn[p], rkey[p]) and result[p] == rkey[p][0]))",
+                "every-node-under-an-earlier-region": "forall([INT, KEY], lambda n, k: implies(0 <= n < it1 - 1 and hits(n, k), 0 <= rpos[(n, k)] < len(result) and result[rpos[(n, k)]] == k[0]))",
+                "this-region-so-far": "forall(lambda t: implies(0 <= t < it3, 0 <= rpos[(it1 - 1, node[t])] < len(result) and result[rpos[(it1 - 1, node[t])]] == node[t][0]))",
+            }),
+        },
+        ghost_at={
+            "after:node_dict[c] = node_list": "cachepos = cache_positions(cachepos, node_list)",
+            "after:result.append(": "rn[len(result) - 1] = it1 - 1\nrkey[len(result) - 1] = nd\nrpos[(it1 - 1, nd)] = len(result) - 1",
+        },
+        assert_at={
+            "before:node = search(": {
+                "list-wellformed": "wfl(node_list, c)",
+                "list-complete": "forall(KEY, lambda k: implies(k in index and k[1] == c, 0 <= cachepos[k] < len(node_list) and node_list[cachepos[k]] == k))",
+                "region": "c == rc(it1 - 1) and n == it1 - 1"},
+            "after:node = search(": {
+                "found-are-hits": "forall(lambda t: implies(0 <= t < len(node), hits(it1 - 1, node[t])))",
+                "hits-are-found": "forall(KEY, lambda k: implies(hits(it1 - 1, k), sglo <= cachepos[k] < sglo + len(node) and node[cachepos[k] - sglo] == k))"},
+        },
+        ensures={
+            "only-ids-of-indexed-nodes-under-some-region": "forall(lambda p: implies(0 <= p < len(result), 0 <= rn[p] < len(regions) and hits(rn[p], rkey[p]) and result[p] == rkey[p][0]))",
+            "every-indexed-node-under-a-region-is-returned": "forall([INT, KEY], lambda n, k: implies(0 <= n < len(regions) and hits(n, k), "
+                                                              "0 <= rpos[(n, k)] < len(result) and result[rpos[(n, k)]] == k[0]))",
+        },
+    ))
